@@ -15,8 +15,15 @@ THEOREMS = [
     'AbacusVerif.Cumsum.cumsum_inbounds',
     'AbacusVerif.Cumsum.psum_append',
     'AbacusVerif.Cumsum.cumsum_chain',      # A then B through the RETURNED total = partial sums of A ++ B (the reader's A -> B chaining)
+    # the output used as an OFFSET TABLE by the callers (Props/C19Offsets.lean)
+    'AbacusVerif.Cumsum.selected_step',     # cell k+1 = cell k + arr[k], cell 0 = offset (no law of +)
+    'AbacusVerif.Cumsum.psum_mono',         # natural counts: the table is non-decreasing
+    'AbacusVerif.Cumsum.slice_within',      # every row's slice lies in [offset, total)
+    'AbacusVerif.Cumsum.slices_disjoint',   # earlier row's slice ends before a later row's slice starts
+    'AbacusVerif.Cumsum.offsets_spec',      # initial=True, final=False, |out| = N
+    'AbacusVerif.Cumsum.offsets_spec_full', # initial=final=True, |out| = N+1: the package's own call pattern
 ]
-LEAN_MODULES = ['AbacusVerif.Props.C19', 'AbacusVerif.Props.C19Chain']
+LEAN_MODULES = ['AbacusVerif.Props.C19', 'AbacusVerif.Props.C19Chain', 'AbacusVerif.Props.C19Offsets']
 DRIVER = 'drv_c19'
 RULE = ('exhaustive small scope: every input length N in 0..Nmax x initial/final x output length in '
         'expected-1..expected+1 x offsets x dtype pairings (int64->int64, uint32->uint64 with wrap-around, '
@@ -238,6 +245,7 @@ def run(ctx):
     for c, mres in zip(cases, outs):
         check_case(ctx, c, mres, cumsum, pure(cumsum))
     check_chain(ctx, cumsum)
+    check_offsets(ctx, cumsum)
     ctx.exhaustive = True
     ctx.extra['scope'] = 'N in 0..%d, all flag pairs, outLen in expected-1..expected+1' % ctx.pick(8, 16)
 
@@ -283,6 +291,56 @@ def check_chain(ctx, cumsum):
                              key='cumsum:chain')
 
 
+def check_offsets(ctx, cumsum):
+    """the real routine used as the callers use it — counts in, OFFSET TABLE out (offsets_spec / offsets_spec_full):
+    cell 0 is the offset, cell k+1 - cell k is counts[k] (rows contiguous), the table is non-decreasing, and the
+    last row's slice ends at the returned total.  Call patterns of compaso_halo_catalog (uint32/int counts -> uint64
+    table, initial=final=True, N+1 cells), menv.py (a Python list of lengths -> int64 table) and the N-cell variant."""
+    import itertools
+    import numpy as np
+    rng = np.random.default_rng([ctx.seed, 1919])
+    Nmax = ctx.pick(7, 13)
+    for N, final, (kind, off) in itertools.product(range(0, Nmax), (0, 1),
+                                                     (('u32u64', 0), ('u32u64', 2 ** 40 + 5), ('list', 0), ('i64', 3), ('u64u64', np.uint64(2 ** 62 + 1)))):
+        for rep in range(ctx.pick(2, 4)):
+            counts = rng.integers(0, 5, N) * rng.integers(0, 2, N)        # about half the rows are empty
+            if kind == 'u32u64':
+                arr, odt = counts.astype(np.uint32), np.uint64
+            elif kind == 'u64u64':
+                arr, odt = counts.astype(np.uint64), np.uint64
+            elif kind == 'i64':
+                arr, odt = counts.astype(np.int64), np.int64
+            else:
+                arr, odt = [int(v) for v in counts], np.int64
+                if N == 0:
+                    continue        # numba cannot type an empty reflected list (same exclusion as in run_impl)
+            n_out = N + final
+            out = np.full(n_out, 77, dtype=odt)
+            case = dict(kind='offsets', dt=kind, counts=[int(v) for v in counts], final=final, off=int(off))
+            ctx.case(case, nontrivial=N > 0)
+            ctx.count('offsets')
+            try:
+                total = cumsum(arr, out, initial=True, final=bool(final), offset=off)
+            except Exception as e:   # noqa: BLE001
+                ctx.fail('cumsum used as an offset table raised', case, '%s: %s' % (type(e).__name__, str(e)[:200]), 'offset table', key='cumsum:offsets')
+                continue
+            tab = [int(v) for v in out]
+            bad = None
+            if n_out and tab[0] != int(off):
+                bad = 'cell 0 is not the offset'
+            for k in range(N):
+                nxt = tab[k + 1] if k + 1 < n_out else int(total)
+                if k < n_out and tab[k] + int(counts[k]) != nxt:
+                    bad = bad or 'row %d: start + count != next start (or the returned total for the last row)' % k
+            if any(tab[k] > tab[k + 1] for k in range(n_out - 1)):
+                bad = bad or 'table decreases'
+            if int(total) != int(off) + int(counts.sum()):
+                bad = bad or 'returned total is not offset + sum(counts)'
+            if bad:
+                ctx.fail('cumsum output is not an offset table: ' + bad, case, dict(table=tab, total=int(total)),
+                         'starts[0]=off, starts[k]+counts[k]=starts[k+1], last slice ends at the total', key='cumsum:offsets')
+
+
 def ctx_corpus():
     import json
     from vcommon import CORPUS
@@ -318,6 +376,9 @@ def replay(ctx, doc):
     c = doc['failure']['case'] if 'failure' in doc else doc
     if c.get('kind') == 'chain':
         check_chain(ctx, cumsum)
+        return
+    if c.get('kind') == 'offsets':
+        check_offsets(ctx, cumsum)
         return
     mres = ctx.driver.query([model_line(c)])[0]
     print('model:', mres)
